@@ -86,6 +86,18 @@ fn core_answer(line: &str, oligos: &Oligos) -> String {
             let norm = w[2] == "1";
             format!("{}|1", bits(&oligos.get(k, norm).verif_vectorise_one(&unhex(w[3]))))
         }
+        "oligobig" => {
+            let k: usize = w[1].parse().unwrap();
+            let norm = w[2] == "1";
+            let mut seq: Vec<u8> = Vec::new();
+            for part in w[3].split('+') {
+                let mut it = part.split('*');
+                if let (Some(b), Some(n)) = (it.next(), it.next()) {
+                    seq.extend(std::iter::repeat(b.parse::<u8>().unwrap_or(b'N')).take(n.parse().unwrap_or(0)));
+                }
+            }
+            format!("{}|1", bits(&oligos.get(k, norm).verif_vectorise_one(&seq)))
+        }
         "header" => {
             let k: usize = w[1].parse().unwrap();
             oligos.get(k, true).verif_header().iter().map(|h| hex(h.as_bytes())).collect::<Vec<_>>().join(",")
@@ -293,6 +305,11 @@ pub fn run_py(pid: &str, only: Option<&[&str]>, tier: &str, seed: u64, model: &M
             cases.push(line);
         }
     }
+    if tier != "replay" && only.map(|o| o.contains(&"oligo")).unwrap_or(true) {
+        // the binding has its own accumulation loop: a column count beyond 2^24 must still be exact
+        let n1 = 16_777_216 + 50 + rng.below(500);
+        cases.push(format!("oligobig {} {} {}*{}+67*{}+78*2+71*{}", rng.range(2, 3), rng.below(2), *rng.pick(&[65u64, 84]), n1, 30 + rng.below(50), 5 + rng.below(20)));
+    }
     if cases.is_empty() {
         return rep;
     }
@@ -338,7 +355,7 @@ pub fn run_py(pid: &str, only: Option<&[&str]>, tier: &str, seed: u64, model: &M
                 fail = Some(Fail {
                     class: "spec",
                     detail: format!("the Python binding and the Rust core disagree on `{}`", trunc(line, 200)),
-                    theorem: match op { "oligo" | "obatch" | "header" => "KT.pyOligo_eq_core", "cgr" | "cbatch" => "KT.pyCgr_eq_core", _ => "KT.py_iter_eq_core" },
+                    theorem: match op { "oligo" | "obatch" | "header" | "oligobig" => "KT.pyOligo_eq_core", "cgr" | "cbatch" => "KT.pyCgr_eq_core", _ => "KT.py_iter_eq_core" },
                     impl_out: trunc(&py[i], 1200),
                     model_out: trunc(&core, 1200),
                 });
